@@ -1,4 +1,708 @@
 package main
 
-func cmdProps(args []string) { die("props: not yet implemented") }
-func cmdC15(args []string)   { die("c15: not yet implemented") }
+import (
+	"crypto/sha256"
+	"encoding/hex"
+	"encoding/json"
+	"flag"
+	"fmt"
+	"os"
+	"path/filepath"
+	"sort"
+	"strings"
+
+	"github.com/go-openapi/loads"
+	"github.com/go-openapi/strfmt"
+	"github.com/go-openapi/validate"
+	"github.com/go-swagger/go-swagger/cmd/swagger/commands/diff"
+	"gopkg.in/yaml.v3"
+
+	"verif/harness/internal/coqpp"
+	"verif/harness/internal/dimpl"
+	"verif/harness/internal/dspec"
+	"verif/harness/internal/rng"
+)
+
+type violation struct {
+	Key    string      `json:"key"`    // narrow identity, matched against KNOWN_FINDINGS.jsonl
+	What   string      `json:"what"`   // one line
+	Input  interface{} `json:"input"`  // replayable input
+	Detail interface{} `json:"detail"` // observed vs expected
+}
+
+type report struct {
+	Evaluations        int            `json:"evaluations"`
+	DistinctNontrivial int            `json:"distinct_nontrivial"`
+	Rule               string         `json:"rule"`
+	Samples            []interface{}  `json:"samples"`
+	Coverage           map[string]int `json:"coverage"`
+	Violations         []violation    `json:"violations"`
+	Skipped            map[string]int `json:"skipped"`
+}
+
+func (r *report) write(path string) {
+	if r.Violations == nil {
+		r.Violations = []violation{}
+	}
+	b, _ := json.MarshalIndent(r, "", " ")
+	if err := os.WriteFile(path, b, 0o644); err != nil {
+		die("%v", err)
+	}
+}
+
+func hashOf(b ...[]byte) string {
+	h := sha256.New()
+	for _, x := range b {
+		h.Write(x)
+		h.Write([]byte{0})
+	}
+	return hex.EncodeToString(h.Sum(nil))[:16]
+}
+
+func isValidSpec(b []byte) bool {
+	doc, err := loads.Analyzed(json.RawMessage(b), "")
+	if err != nil {
+		return false
+	}
+	return validate.Spec(doc, strfmt.Default) == nil
+}
+
+// reserialise: same document as YAML, with parameter, enum, required, tag and consumes/produces lists in reverse order.
+func reserialise(sp *dspec.Spec) *dspec.Spec {
+	c := sp.Clone()
+	rev := func(xs []string) {
+		for i, j := 0, len(xs)-1; i < j; i, j = i+1, j-1 {
+			xs[i], xs[j] = xs[j], xs[i]
+		}
+	}
+	var revSchema func(x *dspec.Schema)
+	revVals := func(v *dspec.Vals) {
+		for i, j := 0, len(v.Enum)-1; i < j; i, j = i+1, j-1 {
+			v.Enum[i], v.Enum[j] = v.Enum[j], v.Enum[i]
+		}
+	}
+	revSchema = func(x *dspec.Schema) {
+		if x == nil {
+			return
+		}
+		revVals(&x.V)
+		rev(x.Required)
+		for i, j := 0, len(x.Props)-1; i < j; i, j = i+1, j-1 {
+			x.Props[i], x.Props[j] = x.Props[j], x.Props[i]
+		}
+		for _, p := range x.Props {
+			revSchema(p.Schema)
+		}
+		revSchema(x.Items)
+		for _, a := range x.AllOf {
+			revSchema(a)
+		}
+	}
+	var revSimple func(x *dspec.Simple)
+	revSimple = func(x *dspec.Simple) {
+		revVals(&x.V)
+		if x.Items != nil {
+			revSimple(x.Items)
+		}
+	}
+	revParams := func(ps []*dspec.Param) {
+		for i, j := 0, len(ps)-1; i < j; i, j = i+1, j-1 {
+			ps[i], ps[j] = ps[j], ps[i]
+		}
+		for _, p := range ps {
+			revSchema(p.Schema)
+			revSimple(&p.Simple)
+		}
+	}
+	rev(c.Consumes)
+	rev(c.Produces)
+	rev(c.Schemes)
+	for _, pi := range c.Paths {
+		revParams(pi.Params)
+		for _, op := range pi.Ops {
+			rev(op.Tags)
+			revParams(op.Params)
+			for _, r := range op.Responses {
+				revSchema(r.Schema)
+				for i := range r.Headers {
+					revSimple(&r.Headers[i].S)
+				}
+			}
+		}
+	}
+	for _, d := range c.Defs {
+		revSchema(d.Schema)
+	}
+	return c
+}
+
+func toYAML(jsonDoc []byte) []byte {
+	var v interface{}
+	if err := json.Unmarshal(jsonDoc, &v); err != nil {
+		panic(err)
+	}
+	b, err := yaml.Marshal(v)
+	if err != nil {
+		panic(err)
+	}
+	return b
+}
+
+// mirror of a change code under argument swap
+var mirrorCode = map[diff.SpecChangeCode]diff.SpecChangeCode{
+	diff.DeletedProperty: diff.AddedProperty, diff.AddedProperty: diff.DeletedProperty,
+	diff.AddedDescripton: diff.DeletedDescripton, diff.DeletedDescripton: diff.AddedDescripton,
+	diff.AddedTag: diff.DeletedTag, diff.DeletedTag: diff.AddedTag,
+	diff.DeletedResponse: diff.AddedResponse, diff.AddedResponse: diff.DeletedResponse,
+	diff.DeletedEndpoint: diff.AddedEndpoint, diff.AddedEndpoint: diff.DeletedEndpoint,
+	diff.WidenedType: diff.NarrowedType, diff.NarrowedType: diff.WidenedType,
+	diff.AddedEnumValue: diff.DeletedEnumValue, diff.DeletedEnumValue: diff.AddedEnumValue,
+	diff.ChangedOptionalToRequired: diff.ChangedRequiredToOptional, diff.ChangedRequiredToOptional: diff.ChangedOptionalToRequired,
+	diff.AddedConsumesFormat: diff.DeletedConsumesFormat, diff.DeletedConsumesFormat: diff.AddedConsumesFormat,
+	diff.AddedProducesFormat: diff.DeletedProducesFormat, diff.DeletedProducesFormat: diff.AddedProducesFormat,
+	diff.AddedSchemes: diff.DeletedSchemes, diff.DeletedSchemes: diff.AddedSchemes,
+	diff.AddedResponseHeader: diff.DeletedResponseHeader, diff.DeletedResponseHeader: diff.AddedResponseHeader,
+	diff.DeletedConstraint: diff.AddedConstraint, diff.AddedConstraint: diff.DeletedConstraint,
+	diff.DeletedDefinition: diff.AddedDefinition, diff.AddedDefinition: diff.DeletedDefinition,
+	diff.AddedDefault: diff.DeletedDefault, diff.DeletedDefault: diff.AddedDefault,
+	diff.AddedExample: diff.DeletedExample, diff.DeletedExample: diff.AddedExample,
+	diff.DeletedExtension: diff.AddedExtension, diff.AddedExtension: diff.DeletedExtension,
+	diff.AddedRequiredProperty: diff.DeletedProperty, // a required property added one way is a property deleted the other way
+}
+
+// field-path of a location without type annotations (types legitimately differ between the two directions)
+func locPath(d diff.SpecDifference) string {
+	var parts []string
+	for n := d.DifferenceLocation.Node; n != nil; n = n.ChildNode {
+		parts = append(parts, n.Field)
+	}
+	return fmt.Sprintf("%s|%s|%d|%s", d.DifferenceLocation.URL, d.DifferenceLocation.Method, d.DifferenceLocation.Response, strings.Join(parts, "."))
+}
+
+func mirrorKey(d diff.SpecDifference, mirrored bool) string {
+	c := d.Code
+	if c == diff.DeletedDeprecatedEndpoint {
+		c = diff.DeletedEndpoint // same direction, different severity
+	}
+	if mirrored {
+		if m, ok := mirrorCode[c]; ok {
+			c = m
+		}
+	}
+	// AddedRequiredProperty and AddedProperty both mirror DeletedProperty: normalise
+	if c == diff.AddedRequiredProperty {
+		c = diff.AddedProperty
+	}
+	// deleting a parameter is DeletedOptionalParam/DeletedRequiredParam; adding is AddedOptionalParam/AddedRequiredParam
+	switch c {
+	case diff.DeletedOptionalParam:
+		if mirrored {
+			c = diff.AddedOptionalParam
+		}
+	case diff.DeletedRequiredParam:
+		if mirrored {
+			c = diff.AddedRequiredParam
+		}
+	case diff.AddedOptionalParam:
+		if mirrored {
+			c = diff.DeletedOptionalParam
+		}
+	case diff.AddedRequiredParam:
+		if mirrored {
+			c = diff.DeletedRequiredParam
+		}
+	}
+	return fmt.Sprintf("%s#%d", locPath(d), int(c))
+}
+
+func multiset(keys []string) map[string]int {
+	m := map[string]int{}
+	for _, k := range keys {
+		m[k]++
+	}
+	return m
+}
+
+func msDiff(a, b map[string]int) (onlyA, onlyB []string) {
+	for k, n := range a {
+		for i := b[k]; i < n; i++ {
+			onlyA = append(onlyA, k)
+		}
+	}
+	for k, n := range b {
+		for i := a[k]; i < n; i++ {
+			onlyB = append(onlyB, k)
+		}
+	}
+	sort.Strings(onlyA)
+	sort.Strings(onlyB)
+	return
+}
+
+func codeName(c int) string {
+	// stable names independent of the (mutable) string tables: use the Go constant's JSON via a fixed table of indices
+	return fmt.Sprintf("code%d", c)
+}
+
+// cmdProps: property-level oracles run directly on the implementation (C12 identity/totality, C14 mirror).
+func cmdProps(args []string) {
+	fs := flag.NewFlagSet("props", flag.ExitOnError)
+	seed := fs.Uint64("seed", 1, "")
+	n := fs.Int("n", 300, "")
+	out := fs.String("out", "", "output directory")
+	which := fs.String("prop", "C12", "C12 | C14")
+	pairsFile := fs.String("pairs", "", "JSON file with a list of {a,b} documents to evaluate instead of generating")
+	_ = fs.Parse(args)
+	if *out == "" {
+		die("props: -out required")
+	}
+	var fixed []struct {
+		A json.RawMessage `json:"a"`
+		B json.RawMessage `json:"b"`
+	}
+	if *pairsFile != "" {
+		b, err := os.ReadFile(*pairsFile)
+		if err != nil {
+			die("%v", err)
+		}
+		if err := json.Unmarshal(b, &fixed); err != nil {
+			die("pairs file: %v", err)
+		}
+		*n = len(fixed)
+	}
+	_ = os.MkdirAll(*out, 0o755)
+	r := rng.New(*seed)
+	pool := dimpl.NewPool()
+	defer pool.Close()
+	rep := &report{Coverage: map[string]int{}, Skipped: map[string]int{}}
+	seen := map[string]bool{}
+	switch *which {
+	case "C12":
+		rep.Rule = "specs from the dspec generator (valid per validate.Spec); identity: Compare(A,A), Compare(A, YAML re-serialisation of A with reversed parameter/enum/required/tag lists) through loads.Spec + DiffCommand; totality: Compare(A,B) for B = A with 1-4 edits or an unrelated spec, run in a child process (panic, fatal stack overflow and 20 s timeout observed). A case is non-trivial when A has at least one definition and one operation with parameters or a response schema; distinct by sha256 of the documents."
+		for i := 0; i < *n; i++ {
+			g := &dspec.Gen{R: r.Fork(), Cov: rep.Coverage}
+			a, b, kind, edits := genPair(g, i)
+			aj, bj := a.JSON(), b.JSON()
+			if fixed != nil {
+				aj, bj, kind, edits = fixed[i].A, fixed[i].B, "replayed", nil
+			}
+			if !isValidSpec(aj) {
+				rep.Skipped["invalid-A"]++
+				continue
+			}
+			rep.Evaluations++
+			h := hashOf(aj, bj)
+			if !seen[h] && len(a.Defs) > 0 && len(a.Paths) > 0 {
+				seen[h] = true
+				rep.DistinctNontrivial++
+			}
+			// identity on A
+			res := pool.Compare(aj, aj)
+			if res.Panic != "" {
+				rep.Violations = append(rep.Violations, violation{Key: "c12/identity-panic", What: "diff.Compare(A,A) crashed: " + res.Panic, Input: map[string]interface{}{"a": json.RawMessage(aj), "b": json.RawMessage(aj)}, Detail: res.Panic})
+			} else if len(res.Diffs) != 0 {
+				rep.Violations = append(rep.Violations, violation{Key: "c12/identity-nonempty", What: "diff.Compare(A,A) reports differences", Input: map[string]interface{}{"a": json.RawMessage(aj), "b": json.RawMessage(aj)}, Detail: dimpl.Lines(res)})
+			}
+			// identity on the re-serialised copy through the command (JSON file vs YAML file)
+			if i%3 == 0 && fixed == nil {
+				rs := reserialise(a).JSON()
+				p1 := filepath.Join(*out, "id_a.json")
+				p2 := filepath.Join(*out, "id_b.yaml")
+				_ = os.WriteFile(p1, aj, 0o644)
+				_ = os.WriteFile(p2, toYAML(rs), 0o644)
+				c := pool.CLI(p1, p2, "json", false, "", filepath.Join(*out, "id_out.txt"))
+				rep.Coverage["identity:reserialised-yaml"]++
+				var ds []json.RawMessage
+				_ = json.Unmarshal([]byte(c.Output), &ds)
+				if c.Panic != "" || c.Failed || len(ds) != 0 || strings.TrimSpace(c.Output) != "[]" {
+					rep.Violations = append(rep.Violations, violation{Key: "c12/reserialised-differs", What: "swagger diff A.json A-reordered.yaml reports a change, fails or crashes",
+						Input: map[string]interface{}{"a": json.RawMessage(aj), "b_yaml": string(toYAML(rs))}, Detail: map[string]interface{}{"output": c.Output, "failed": c.Failed, "panic": c.Panic, "err": c.ErrMsg}})
+				}
+				ct := pool.CLI(p1, p2, "txt", false, "", filepath.Join(*out, "id_out.txt"))
+				if ct.Panic != "" || ct.Failed || strings.TrimSpace(ct.Output) != "No changes identified" {
+					rep.Violations = append(rep.Violations, violation{Key: "c12/reserialised-differs-text", What: "swagger diff (text) A.json A-reordered.yaml does not say 'No changes identified' with exit 0",
+						Input: map[string]interface{}{"a": json.RawMessage(aj), "b_yaml": string(toYAML(rs))}, Detail: map[string]interface{}{"output": ct.Output, "failed": ct.Failed, "panic": ct.Panic}})
+				}
+			}
+			// totality on the pair
+			if kind != "identity" && isValidSpec(bj) {
+				rep.Coverage["totality:"+kind]++
+				for _, e := range edits {
+					rep.Coverage["edit:"+e]++
+				}
+				for dir, pr := range [][2][]byte{{aj, bj}, {bj, aj}} {
+					res := pool.Compare(pr[0], pr[1])
+					if res.Panic != "" {
+						key := "c12/totality-panic"
+						if strings.HasPrefix(res.Panic, "CRASH") {
+							key = "c12/totality-crash-or-hang"
+						}
+						rep.Violations = append(rep.Violations, violation{Key: key, What: "diff.Compare(A,B) did not terminate normally: " + res.Panic,
+							Input: map[string]interface{}{"a": json.RawMessage(pr[0]), "b": json.RawMessage(pr[1]), "direction": dir, "edits": edits}, Detail: res.Panic})
+					}
+				}
+			}
+			if len(rep.Samples) < 3 && kind == "edited" {
+				rep.Samples = append(rep.Samples, map[string]interface{}{"kind": kind, "edits": edits, "a": json.RawMessage(aj), "b": json.RawMessage(bj)})
+			}
+		}
+	case "C14":
+		rep.Rule = "pairs (A,B) of valid specs: B = A with 1-4 elementary edits, or unrelated; observable: multiset of (url, method, response, field path, change code) of diff.Compare(A,B) vs the mirrored multiset of diff.Compare(B,A), and the two counts. Non-trivial when the report has at least one entry; distinct by sha256 of the pair."
+		for i := 0; i < *n; i++ {
+			g := &dspec.Gen{R: r.Fork(), Cov: rep.Coverage}
+			a, b, kind, edits := genPair(g, i*8+3+i%5) // skip identity/unrelated-only slots mostly
+			aj, bj := a.JSON(), b.JSON()
+			if fixed != nil {
+				aj, bj, kind, edits = fixed[i].A, fixed[i].B, "replayed", nil
+			}
+			if !isValidSpec(aj) || !isValidSpec(bj) {
+				rep.Skipped["invalid"]++
+				continue
+			}
+			ab := pool.Compare(aj, bj)
+			ba := pool.Compare(bj, aj)
+			rep.Evaluations++
+			if ab.Panic != "" || ba.Panic != "" {
+				rep.Skipped["panic (C12's business)"]++
+				continue
+			}
+			h := hashOf(aj, bj)
+			if !seen[h] && len(ab.Diffs) > 0 {
+				seen[h] = true
+				rep.DistinctNontrivial++
+			}
+			for _, e := range edits {
+				rep.Coverage["edit:"+e]++
+			}
+			var k1, k2 []string
+			for _, d := range ab.Diffs {
+				k1 = append(k1, mirrorKey(d, false))
+			}
+			for _, d := range ba.Diffs {
+				k2 = append(k2, mirrorKey(d, true))
+			}
+			onlyAB, onlyBA := msDiff(multiset(k1), multiset(k2))
+			if len(onlyAB) > 0 || len(onlyBA) > 0 {
+				// one record per location, keyed by the codes that do not mirror there
+				locs := map[string][2][]string{}
+				for _, k := range onlyAB {
+					l := k[:strings.LastIndex(k, "#")]
+					e := locs[l]
+					e[0] = append(e[0], k)
+					locs[l] = e
+				}
+				for _, k := range onlyBA {
+					l := k[:strings.LastIndex(k, "#")]
+					e := locs[l]
+					e[1] = append(e[1], k)
+					locs[l] = e
+				}
+				var ls []string
+				for l := range locs {
+					ls = append(ls, l)
+				}
+				sort.Strings(ls)
+				for _, l := range ls {
+					key := classifyMirror(ab.Diffs, ba.Diffs, locs[l][0], locs[l][1])
+					rep.Violations = append(rep.Violations, violation{Key: key, What: "diff(A,B) is not the mirror of diff(B,A) at " + l,
+						Input:  map[string]interface{}{"a": json.RawMessage(aj), "b": json.RawMessage(bj), "kind": kind, "edits": edits},
+						Detail: map[string]interface{}{"location": l, "only_in_AB": locs[l][0], "only_in_mirrored_BA": locs[l][1], "AB": dimpl.Lines(ab), "BA": dimpl.Lines(ba)}})
+				}
+			}
+			if len(rep.Samples) < 3 && len(ab.Diffs) > 0 {
+				rep.Samples = append(rep.Samples, map[string]interface{}{"edits": edits, "AB": dimpl.Lines(ab), "BA": dimpl.Lines(ba)})
+			}
+		}
+	case "C13":
+		rep.Rule = "base specs from the dspec generator (valid per validate.Spec) x the catalogue of elementary request-narrowing / response-breaking edits (cmd/diffcheck/c13.go) at every site: non-body parameters incl. path-level and items, body schema nodes at any depth through properties, items, allOf and $ref. Value-level edits carry a witness instance that go-openapi/validate accepts under the old schema and rejects under the new one; oracle: diff.Compare(A,B) contains a Breaking entry. Non-trivial: every catalogue case (each is one narrowing edit with its witness); distinct by sha256 of (A,B)."
+		if fixed != nil {
+			for i := range fixed {
+				res := pool.Compare(fixed[i].A, fixed[i].B)
+				rep.Evaluations++
+				if res.Panic == "" && !hasBreaking(res) {
+					rep.Violations = append(rep.Violations, violation{Key: "c13/unreported[replayed]", What: "replayed pair: no Breaking entry", Input: map[string]interface{}{"a": fixed[i].A, "b": fixed[i].B}, Detail: dimpl.Lines(res)})
+				}
+			}
+			break
+		}
+		for i := 0; rep.Evaluations < *n && i < *n; i++ {
+			g := &dspec.Gen{R: r.Fork(), Cov: map[string]int{}}
+			a := g.Spec()
+			aj := a.JSON()
+			if !isValidSpec(aj) {
+				rep.Skipped["invalid-A"]++
+				continue
+			}
+			aDoc, _ := dimpl.Load(aj)
+			for _, c := range c13Catalogue(a, aDoc) {
+				bj := c.b.JSON()
+				res := pool.Compare(aj, bj)
+				if res.Panic == "" && !hasBreaking(res) && !isValidSpec(bj) {
+					rep.Skipped["invalid-B"]++
+					continue
+				}
+				rep.Evaluations++
+				cell := c.kind + "@" + c.where
+				rep.Coverage[cell]++
+				h := hashOf(aj, bj)
+				if !seen[h] {
+					seen[h] = true
+					rep.DistinctNontrivial++
+				}
+				if res.Panic != "" {
+					rep.Skipped["panic (C12's business)"]++
+					continue
+				}
+				if !hasBreaking(res) {
+					key := cell
+					if c.class != "" {
+						key = c.class
+					} else if len(res.Diffs) > 0 && !c.response {
+						onlyResp := true
+						for _, d := range res.Diffs {
+							if d.DifferenceLocation.Response == 0 {
+								onlyResp = false
+							}
+						}
+						if onlyResp {
+							key = "definition-shared-with-response"
+						}
+					}
+					rep.Violations = append(rep.Violations, violation{Key: "c13/unreported[" + key + "]", What: "a breaking edit (" + cell + ") is reported without any Breaking entry",
+						Input:  map[string]interface{}{"a": json.RawMessage(aj), "b": json.RawMessage(bj), "edit": cell, "witness": c.witness, "witness_validated_by_reference_validator": c.validated},
+						Detail: dimpl.Lines(res)})
+				}
+				if len(rep.Samples) < 3 && c.validated {
+					rep.Samples = append(rep.Samples, map[string]interface{}{"edit": cell, "witness": c.witness, "report": dimpl.Lines(res)})
+				}
+			}
+		}
+	default:
+		die("props: unknown property %s", *which)
+	}
+	rep.write(filepath.Join(*out, "props.json"))
+	fmt.Printf("props %s: %d evaluations, %d distinct non-trivial, %d violations\n", *which, rep.Evaluations, rep.DistinctNontrivial, len(rep.Violations))
+}
+
+// classifyMirror gives an asymmetry a narrow key: the set of (code, direction) involved.
+func classifyMirror(ab, ba diff.SpecDifferences, onlyAB, onlyBA []string) string {
+	codes := map[string]bool{}
+	for _, k := range onlyAB {
+		codes["ab:"+k[strings.LastIndex(k, "#")+1:]] = true
+	}
+	for _, k := range onlyBA {
+		codes["ba:"+k[strings.LastIndex(k, "#")+1:]] = true
+	}
+	var ks []string
+	for k := range codes {
+		ks = append(ks, k)
+	}
+	sort.Strings(ks)
+	return "c14/asym[" + strings.Join(ks, ",") + "]"
+}
+
+// ---------- C15 ----------
+
+var textHeaders = map[string]bool{
+	"NON-BREAKING CHANGES:": true, "=====================": true, "NON-BREAKING CHANGES WITH WARNING:": true,
+	"==================================": true, "BREAKING CHANGES:": true, "=================": true, "": true,
+	"No changes identified": true, "compatibility test OK. No breaking changes identified.": true,
+}
+
+func entryLines(out string) []string {
+	var ls []string
+	for _, l := range strings.Split(out, "\n") {
+		if textHeaders[l] || strings.HasPrefix(l, "compatibility test FAILED:") {
+			continue
+		}
+		ls = append(ls, l)
+	}
+	return ls
+}
+
+func strsCoq(xs []string) string { return coqpp.StrList(xs) }
+
+func cmdC15(args []string) {
+	fs := flag.NewFlagSet("c15", flag.ExitOnError)
+	seed := fs.Uint64("seed", 1, "")
+	n := fs.Int("n", 120, "")
+	out := fs.String("out", "", "output directory")
+	shards := fs.Int("shards", 8, "")
+	_ = fs.Parse(args)
+	if *out == "" {
+		die("c15: -out required")
+	}
+	_ = os.MkdirAll(*out, 0o755)
+	r := rng.New(*seed)
+	pool := dimpl.NewPool()
+	defer pool.Close()
+	rep := &report{Coverage: map[string]int{}, Skipped: map[string]int{}}
+	rep.Rule = "pairs (A,B) from the dspec generator; for each: `swagger diff` (DiffCommand.Execute, the function main() calls) with -f json, text, -b; the JSON report fed back verbatim as ignore file (all entries / a random subset / none) in all three formats. Non-trivial: the report has at least 2 entries and the ignore subset is a proper non-empty subset; distinct by sha256 of (pair, subset)."
+	seen := map[string]bool{}
+	bufs := make([][]string, *shards)
+	ncase := 0
+	oldP, newP := filepath.Join(*out, "old.json"), filepath.Join(*out, "new.json")
+	ignP, dst := filepath.Join(*out, "ignore.json"), filepath.Join(*out, "out.txt")
+	addV := func(key, what string, aj, bj []byte, ignore string, detail interface{}) {
+		rep.Violations = append(rep.Violations, violation{Key: key, What: what,
+			Input: map[string]interface{}{"a": json.RawMessage(aj), "b": json.RawMessage(bj), "ignore_file": ignore}, Detail: detail})
+	}
+	for i := 0; i < *n; i++ {
+		g := &dspec.Gen{R: r.Fork(), Cov: rep.Coverage, Lenient: i%4 == 3}
+		a, b, kind, _ := genPair(g, i*8+4+i%3)
+		if i%10 == 0 {
+			a, b, kind, _ = genPair(g, 0) // identity
+		}
+		aj, bj := a.JSON(), b.JSON()
+		_ = os.WriteFile(oldP, aj, 0o644)
+		_ = os.WriteFile(newP, bj, 0o644)
+		js := pool.CLI(oldP, newP, "json", false, "", dst)
+		if js.Panic != "" {
+			rep.Skipped["panic (C12's business)"]++
+			continue
+		}
+		var all diff.SpecDifferences
+		if err := json.Unmarshal([]byte(js.Output), &all); err != nil {
+			addV("c15/json-report-unreadable", "the JSON report cannot be read back as an ignore file: "+err.Error(), aj, bj, "", js.Output)
+			continue
+		}
+		rep.Coverage["kind:"+kind]++
+		// ignore sets: none, all, random subset
+		subset := diff.SpecDifferences{}
+		for _, d := range all {
+			if g.R.Chance(1, 2) {
+				subset = append(subset, d)
+			}
+		}
+		for which, ig := range map[string]diff.SpecDifferences{"none": nil, "all": all, "subset": subset} {
+			ignore := ""
+			igText := ""
+			if which != "none" {
+				var rawAll []json.RawMessage
+				_ = json.Unmarshal([]byte(js.Output), &rawAll)
+				// the ignore file is the verbatim JSON report, or the verbatim entries of the subset
+				if which == "all" {
+					igText = js.Output
+				} else {
+					var keep []json.RawMessage
+					ki := 0
+					for idx, d := range all {
+						if ki < len(subset) && d.Matches(subset[ki]) && dimpl.Key(d) == dimpl.Key(subset[ki]) {
+							keep = append(keep, rawAll[idx])
+							ki++
+						}
+					}
+					if keep == nil {
+						keep = []json.RawMessage{}
+					}
+					bb, _ := json.MarshalIndent(keep, "", "  ")
+					igText = string(bb)
+				}
+				_ = os.WriteFile(ignP, []byte(igText), 0o644)
+				ignore = ignP
+			}
+			rj := pool.CLI(oldP, newP, "json", false, ignore, dst)
+			rt := pool.CLI(oldP, newP, "txt", false, ignore, dst)
+			rb := pool.CLI(oldP, newP, "txt", true, ignore, dst)
+			rep.Evaluations++
+			h := hashOf(aj, bj, []byte(igText))
+			if !seen[h] && len(all) >= 2 && (which != "subset" || (len(subset) > 0 && len(subset) < len(all))) {
+				seen[h] = true
+				rep.DistinctNontrivial++
+			}
+			rep.Coverage["ignore:"+which]++
+			if rj.Panic != "" || rt.Panic != "" || rb.Panic != "" {
+				addV("c15/panic", "swagger diff panicked in report mode", aj, bj, igText, []string{rj.Panic, rt.Panic, rb.Panic})
+				continue
+			}
+			// expected remaining entries: all minus the ignored ones (exact, order kept)
+			var expect diff.SpecDifferences
+			for _, d := range all {
+				ignored := false
+				for _, x := range ig {
+					if dimpl.Key(x) == dimpl.Key(d) {
+						ignored = true
+					}
+				}
+				if !ignored {
+					expect = append(expect, d)
+				}
+			}
+			var got diff.SpecDifferences
+			if err := json.Unmarshal([]byte(rj.Output), &got); err != nil {
+				addV("c15/json-report-unreadable", "JSON report with ignore file unreadable", aj, bj, igText, rj.Output)
+				continue
+			}
+			var ke, kg []string
+			for _, d := range expect {
+				ke = append(ke, dimpl.Key(d))
+			}
+			for _, d := range got {
+				kg = append(kg, dimpl.Key(d))
+			}
+			if strings.Join(ke, "\n") != strings.Join(kg, "\n") {
+				key := "c15/ignore-subset-inexact"
+				if which == "all" {
+					key = "c15/ignore-all-not-empty"
+				}
+				addV(key, "ignoring "+which+" of the reported differences does not remove exactly those entries", aj, bj, igText,
+					map[string]interface{}{"expected": ke, "got": kg})
+			}
+			// exit status
+			breaking := 0
+			for _, d := range expect {
+				if d.Compatibility == diff.Breaking {
+					breaking++
+				}
+			}
+			if rt.Failed != (breaking > 0) {
+				addV("c15/exit-status-text", fmt.Sprintf("text mode: exit non-zero=%v with %d non-ignored breaking differences", rt.Failed, breaking), aj, bj, igText, rt.Output)
+			}
+			if rb.Failed != (breaking > 0) {
+				addV("c15/exit-status-breaking-only", fmt.Sprintf("-b mode: exit non-zero=%v with %d non-ignored breaking differences", rb.Failed, breaking), aj, bj, igText, rb.Output)
+			}
+			if rj.Failed != (breaking > 0) {
+				addV("c15/exit-status-json", fmt.Sprintf("-f json: exit non-zero=%v with %d non-ignored breaking differences", rj.Failed, breaking), aj, bj, igText, nil)
+			}
+			// reports describe the same set
+			var es, bs []string
+			for _, d := range expect {
+				es = append(es, d.String())
+				if d.Compatibility == diff.Breaking {
+					bs = append(bs, d.String())
+				}
+			}
+			tl, bl := entryLines(rt.Output), entryLines(rb.Output)
+			oa, ob := msDiff(multiset(es), multiset(tl))
+			if len(oa)+len(ob) > 0 {
+				addV("c15/text-report-differs-from-json", "text report and JSON report describe different sets", aj, bj, igText, map[string]interface{}{"only_json": oa, "only_text": ob})
+			}
+			oa, ob = msDiff(multiset(bs), multiset(bl))
+			if len(oa)+len(ob) > 0 {
+				addV("c15/breaking-report-differs", "breaking-only report is not the Breaking subset", aj, bj, igText, map[string]interface{}{"only_json": oa, "only_b": ob})
+			}
+			if len(expect) == 0 && which == "all" && (strings.TrimSpace(rt.Output) != "No changes identified" || strings.TrimSpace(rj.Output) != "[]") {
+				addV("c15/ignore-all-not-empty", "ignoring everything does not yield an empty report", aj, bj, igText, map[string]interface{}{"text": rt.Output, "json": rj.Output})
+			}
+			// model correspondence case
+			sh := ncase % *shards
+			bufs[sh] = append(bufs[sh], fmt.Sprintf("(* rcase %d *) {| rc_ds := %s; rc_ig := %s; rc_text := %s; rc_breaking := %s; rc_njson := %d; rc_exit_text := %s; rc_exit_break := %s; rc_exit_json := %s |}",
+				ncase, dimpl.DiffsCoq(all), dimpl.DiffsCoq(ig), strsCoq(tl), strsCoq(bl), len(got), coqpp.Bool(rt.Failed), coqpp.Bool(rb.Failed), coqpp.Bool(rj.Failed)))
+			ncase++
+			if len(rep.Samples) < 3 && which == "subset" && len(all) > 1 {
+				rep.Samples = append(rep.Samples, map[string]interface{}{"report_entries": len(all), "ignored": len(subset), "text_report": rt.Output, "exit_text": rt.Failed, "exit_json": rj.Failed})
+			}
+		}
+	}
+	for sh := 0; sh < *shards; sh++ {
+		var sb strings.Builder
+		sb.WriteString(header)
+		sb.WriteString("Definition cases : list rcase := [\n")
+		sb.WriteString(strings.Join(bufs[sh], ";\n"))
+		sb.WriteString("\n].\nDefinition M := Eval vm_compute in run_reports cases.\nPrint M.\n")
+		_ = os.WriteFile(filepath.Join(*out, fmt.Sprintf("cases_%02d.v", sh)), []byte(sb.String()), 0o644)
+	}
+	rep.Coverage["model-cases"] = ncase
+	rep.write(filepath.Join(*out, "props.json"))
+	fmt.Printf("c15: %d evaluations, %d distinct non-trivial, %d violations, %d model cases\n", rep.Evaluations, rep.DistinctNontrivial, len(rep.Violations), ncase)
+}
